@@ -19,6 +19,9 @@ def check(run: Run) -> None:
     run.rule("C06.R5", "what is stored for a new note is what a fresh index would store: index body and file line drop the same leading word; no re-flowing split/join")
     # abstract runs of `db reindex` over generic worlds (new / changed / unchanged / fixed / vanished pages; a restricted reindex)
     reindex_rules(run, model, dict(change="C06.R1", order="C06.R2", stale="C06.R3", ack="C06.R4"))
+    from ..indexscen import bus_rules
+
+    bus_rules(run, model, "C06.R4")
     removal_internals(run, model, "C06.R2")
     writeback_rules(run, model, "C06.R4")
     zids_before_index(run, model, "C06.R5")
